@@ -15,6 +15,9 @@ for q in quals:
     if out['error']: print(out['error'])
     for i in out['infos']:
         print('   variant=%s paths=%d feasible=%d cut=%d unsupported=%s' % (i['variant'], i['paths'], i['feasible_paths'], i['cut'], i['unsupported'][:3]))
+    can = [o for o in out['obligations'] if 'canary' in o['tags']]
+    out['obligations'] = [o for o in out['obligations'] if 'canary' not in o['tags']]
+    print('   canaries %d, wrongly proved %d' % (len(can), len([o for o in can if o['verdict']=='proved'])))
     bad = [o for o in out['obligations'] if o['verdict'] != 'proved']
     print('   obligations %d, not proved %d, max ms %.0f' % (len(out['obligations']), len(bad), max([o['ms'] for o in out['obligations']] or [0])))
     for o in bad[:12]:
